@@ -21,6 +21,12 @@ theorem coreInv_hide {s : St} (h : CoreInv s.core) (ns : List Node) : CoreInv (s
   · simp only [hc]
     simpa using hn
 
+theorem coreInv_refresh {s : St} (h : CoreInv s.core) (ns : List Node) : CoreInv (s.refresh ns).core := by
+  unfold St.refresh
+  split
+  · exact h
+  · exact coreInv_hide h _
+
 /-- the processed check + mark of `_execute_node` -/
 theorem coreInv_mark {s : St} (h : CoreInv s.core) (n : Node) (hp : s.procExists n = false) :
     CoreInv (s.markProcessed n).core := by
@@ -77,7 +83,8 @@ theorem coreInv_dagInit (c : Ctx) (s : St) (obs : List Obs) (d : DagRef) (below 
     (h : CoreInv s.core) : CoreInv (dagInit c s obs d below).1.core := by
   unfold dagInit
   simp only []
-  have h0 : CoreInv (s.noteOrder (validOrder c.P s d c.ord)).core := by simpa using h
+  have h0 : CoreInv ((s.refresh d.nodes).noteOrder (validOrder c.P (s.refresh d.nodes) d c.ord)).core := by
+    simpa using coreInv_refresh h d.nodes
   split <;> simpa using h0
 
 theorem coreInv_switchStart (c : Ctx) (s : St) (obs : List Obs) (d : DagRef) (n : Node) (below : List Frame)
@@ -91,14 +98,43 @@ theorem coreInv_switchStart (c : Ctx) (s : St) (obs : List Obs) (d : DagRef) (n 
     · apply coreInv_dagInit
       simpa using h
 
+theorem coreInv_oneofTry (c : Ctx) (d : DagRef) (head : Node) (below : List Frame) (cands : List Node) :
+    ∀ (s : St) (obs : List Obs), CoreInv s.core → CoreInv (oneofTry c d head below s obs cands).1.core := by
+  induction cands with
+  | nil =>
+    intro s obs h
+    simp only [oneofTry]
+    split <;> simpa using h
+  | cons cand rest ih =>
+    intro s obs h
+    simp only [oneofTry]
+    split
+    · simpa using h
+    · next sub _ =>
+      have h1 : CoreInv ((openCand s true cand).refresh sub.nodes).core := coreInv_refresh (by simpa using h) _
+      split
+      · split
+        · apply ih; simpa using h1
+        · simpa [oneofWin] using h1
+      · simpa using h1
+
+theorem coreInv_oneofWake (c : Ctx) (s : St) (obs : List Obs) (d : DagRef) (head cand : Node) (rest : List Node)
+    (sub : DagRef) (below : List Frame) (h : CoreInv s.core) :
+    CoreInv (oneofWake c s obs d head cand rest sub below).1.core := by
+  unfold oneofWake
+  split
+  · split
+    · exact coreInv_oneofTry _ _ _ _ _ _ _ h
+    · simpa [oneofWin] using h
+  · simpa using h
+
 theorem coreInv_recIter (c : Ctx) (s : St) (obs : List Obs) (d : DagRef) (n start : Node) (g : DagRef) (k : Nat)
     (r : Val) (below : List Frame) (h : CoreInv s.core) : CoreInv (recIter c s obs d n start g k r below).1.core := by
   unfold recIter
   simp only []
   split
   · apply coreInv_dagInit
-    apply coreInv_hide
-    simpa using h
+    exact h
   · split
     · apply coreInv_nodeStart
       exact coreInv_hide h _
@@ -138,6 +174,8 @@ theorem coreInv_stepTask (c : Ctx) (s : St) (out : Out) (h : CoreInv s.core)
           | exact coreInv_switchStart _ _ _ _ _ _ h
           | exact coreInv_recStart _ _ _ _ _ _ _ h
           | exact coreInv_recIter _ _ _ _ _ _ _ _ _ _ h
+          | exact coreInv_oneofTry _ _ _ _ _ _ _ h
+          | exact coreInv_oneofWake _ _ _ _ _ _ _ _ _ h
           | exact coreInv_cbThen _ _ _ _ _ _ h (fun s' obs' h' => by
               first
                 | (simpa using h')
